@@ -18,6 +18,7 @@ import (
 	"math/rand"
 	"os"
 	"reflect"
+	"regexp"
 	"sort"
 	"strconv"
 	"strings"
@@ -270,11 +271,39 @@ func uni() []string {
 
 var wordsUni = uni()
 
-// str: a string for a free-text field; base = realistic values of that field
+var alphabet = append([]string{" ", "  ", "\t", "\n", "\r", "\r\n", "\"", "'", "\\", ":", ": ", " #", "#", "-", "- ", "--", "---", "...", "?", "? ", ",", "{", "}", "[", "]",
+	"&", "*", "!", "!!", "|", ">", "%", "@", "`", "<", "<<", "=", "~", "$", "${", "%{", "a", "b", "Z", "0", "7", "1e3", "x", "y", "N", "true", "null", ".", "_", "/", "+", "é", "я", "語"},
+	string(rune(0x2028)), string(rune(0x2029)), string(rune(0x85)), string(rune(0xfeff)), string(rune(0xa0)), string(rune(0x200b)), string(rune(0x1F600)), string(rune(0x7f)), string(rune(0x1b)), string(rune(0x01)))
+
+// nasty: a random concatenation of characters that matter to YAML or HCL
+func (g *gen) nasty() string {
+	n := 1 + g.r.Intn(6)
+	var b strings.Builder
+	for i := 0; i < n; i++ {
+		b.WriteString(g.pick(alphabet))
+	}
+	return b.String()
+}
+
+// a value that is exactly one ${...} placeholder is a config-variable reference for core/config (VariableInjectHook):
+// for *string / interface targets both front-ends refuse it, which the model does not predict; corpus only
+var placeholderRe = regexp.MustCompile(`^\$\{[^{}]+\}$`)
+
 func (g *gen) str(base []string) string {
+	s := g.str0(base)
+	if placeholderRe.MatchString(strings.TrimSpace(s)) {
+		return "x" + s
+	}
+	return s
+}
+
+// str0: a string for a free-text field; base = realistic values of that field
+func (g *gen) str0(base []string) string {
 	switch x := g.r.Intn(100); {
-	case x < 50:
+	case x < 42:
 		return g.pick(base)
+	case x < 50:
+		return g.nasty()
 	case x < 70:
 		return g.pick(wordsYAML)
 	case x < 82:
@@ -298,6 +327,8 @@ func (g *gen) smap(keys, vals []string, maxN int) *Node {
 			k = g.pick(wordsKey)
 		} else if g.chance(8) {
 			k = g.pick(wordsUni)
+		} else if g.chance(8) {
+			k = g.nasty()
 		}
 		if seen[k] || k == "<<" {
 			continue
